@@ -735,7 +735,7 @@ class DateTimeBase(Converter, abc.ABC):
                 could not be converted.
         """
         try:
-            return datetime.strptime(value, kwargs["format"])
+            return datetime.strptime(value.strip(), kwargs["format"])
         except KeyError:
             raise ConverterError("Missing format keyword argument")
         except Exception as e:
